@@ -23,15 +23,15 @@ KNOWN = 'C08-list-append-in-resolution-order'
 GRAMMAR = """
 Model: objs+=Obj users+=User;
 Obj: 'obj' name=ID;
-User: 'user' name=ID ('refs' refs+=[Obj])? ('one' one=[Obj])? ('more' more+=[Obj][','])? ';';
+User: 'user' name=ID ('refs' refs+=[Obj] ':')? ('one' one=[Obj] ':')? ('more' more+=[Obj][','])? ';';
 """
 CASES = [
     # (model text, description)
-    ("obj a obj b obj c user u refs a b c ;", 'one list of 3'),
-    ("obj a obj b obj c user u refs c a b one b ;", 'list of 3 + single reference'),
-    ("obj a obj b user u refs a b more b, a ; user v refs b a ;", 'three lists in two objects'),
-    ("obj a obj b obj c obj d user u refs a b c d ;", 'one list of 4'),
-    ("obj a obj b obj c user u refs a a b more c, a, b ;", 'repeated targets, two lists'),
+    ("obj a obj b obj c user u refs a b c : ;", 'one list of 3'),
+    ("obj a obj b obj c user u refs c a b : one b : ;", 'list of 3 + single reference'),
+    ("obj a obj b user u refs a b : more b, a ; user v refs b a : ;", 'three lists in two objects'),
+    ("obj a obj b obj c obj d user u refs a b c d : ;", 'one list of 4'),
+    ("obj a obj b obj c user u refs a a b : more c, a, b ;", 'repeated targets, two lists'),
 ]
 
 
@@ -75,12 +75,14 @@ def run_case(ci, max_rounds, timeout_ms):
                     bad.append({'user': u.name, 'attr': an, 'got': got, 'expected': exp})
         return ('bad' if bad else 'ok', bad, sorted(sched))
     outs = ctx.explore(path)
+    if not any(o[0] == 'ok' for o in outs):
+        raise RuntimeError('vacuous case (no schedule loads): %r -> %r' % (text, outs[:1]))
     return ctx, outs
 
 
 def expected_names(text, user, attr):
     """textual order of the reference names of one list (from the input text)"""
-    toks = text.replace(',', ' ').replace(';', ' ; ').split()
+    toks = text.replace(',', ' ').replace(':', ' ').replace(';', ' ; ').split()
     i = toks.index('user')
     while toks[i + 1] != user:
         i = toks.index('user', i + 1)
